@@ -225,7 +225,7 @@ def run(chk):
         shutil.rmtree(d, ignore_errors=True)
         tid += 1
     # subprocess sample: real exit statuses, stdin and stdout --------------------------------------------------
-    nsub = 60 if thorough else 12
+    nsub = 80 if thorough else 20
     env = common.child_env()
     for i in range(nsub):
         d = os.path.join(root, 's%d' % i)
@@ -238,7 +238,8 @@ def run(chk):
         tdda_path = os.path.join(d, 'cons.tdda')
         with open(tdda_path, 'w') as f:
             f.write(cs.to_json())
-        mode = ['verify-stdin', 'discover-stdout', 'missing-input', 'unknown-flag', 'verify-file', 'detect-stdout', 'detect-twice', 'verify-stdin'][i % 8]
+        mode = ['verify-stdin', 'discover-stdout', 'missing-input', 'unknown-flag', 'verify-file', 'detect-stdout', 'detect-twice', 'verify-stdin',
+                'missing-constraints', 'verify-flags'][i % 10]
         stdin = None
         if mode == 'verify-stdin':
             argv, stdin, want0 = ['verify', '-', tdda_path], open(inp).read(), True
@@ -250,6 +251,15 @@ def run(chk):
             argv, want0 = ['detect', '--bogus', inp, tdda_path, os.path.join(d, 'out.csv')], False
         elif mode == 'detect-stdout':
             argv, want0 = ['detect', inp, tdda_path, '-'], True
+        elif mode == 'missing-constraints':
+            # the constraints file is what is missing (named, or the default next to the input)
+            argv = rnd.choice([['verify', inp, os.path.join(d, 'missing.tdda')], ['detect', inp, os.path.join(d, 'missing.tdda'), os.path.join(d, 'out.csv')],
+                               ['verify', inp], ['verify', '-', os.path.join(d, 'missing.tdda')]])
+            stdin = open(inp).read() if '-' in argv else None
+            want0 = False
+        elif mode == 'verify-flags':
+            # what the command prints under its report flags is what the library counts
+            argv, want0 = ['verify'] + rnd.choice([['-f'], ['--fields'], ['-a'], ['--all'], ['-7', '-f'], ['-f', '--ascii']]) + [inp, tdda_path], True
         elif mode == 'detect-twice':
             # the same output path twice: first on data with failing records, then on clean data (nothing to report)
             outp_ = os.path.join(d, 'failures.' + rnd.choice(['csv', 'parquet']))
@@ -271,7 +281,7 @@ def run(chk):
         ev = {'tid': tid, 'ev': 'Cli', 'cmd': argv[0], 'raised': 'none', 'exitzero': p.returncode == 0, 'expectzero': want0,
               'outputleft': os.path.exists(os.path.join(d, 'out.csv')), 'sameaslib': True, 'closure': True,
               'contradictory': False, 'fault': mode}
-        if mode == 'verify-stdin' and p.returncode == 0:
+        if mode in ('verify-stdin', 'verify-flags', 'verify-file') and p.returncode == 0:
             with contextlib.redirect_stdout(io.StringIO()), contextlib.redirect_stderr(io.StringIO()):
                 lv = verify_df(load_df(inp), tdda_path)
             ev['sameaslib'] = ('Constraints passing: %d' % lv.passes) in p.stdout and ('Constraints failing: %d' % lv.failures) in p.stdout
